@@ -22,6 +22,7 @@ func c20(c *eng.Ctx, r *eng.Report) {
 		"R20.5 a BeforeExecute implementation mutates state only through ProcessFee; " +
 		"R20.6 a record is rewritten read-modify-write — UpdateMiner(m, db, false), which writes stake, account and status together, is given the record just read from the registry — and RemoveMiner erases the four slots only on the `left == 0` edge. " +
 		"R20.7 the stake total and the proposer set used for leader election grow together, by the record's own stake, only for non-nil records whose status is normal and whose ApplyHeight has been reached, and the proposer count is the size of that same set (no second walk with its own filter). " +
+		"R20.10 an escrow slot accumulates: in RefundManager.Add every SetData for an id whose slot was found non-empty writes a value computed from what GetData returned (existing + new) — only on the `slot empty` edge may the new amount be stored alone; a second batch for the same height and account (the unstake opcodes flush per call; a reward landing on the same height) otherwise replaces the first and the earlier refund vanishes; " +
 		"R20.9 a refund never exceeds the stake: the subtraction `miner.Stake - money` in GetRefundStake happens only on the `miner.Stake >= money` edge (the fields are unsigned — a test of the difference against zero can never fire, the difference wraps to about 2^64 and the full amount is scheduled); " +
 		"R20.8 what AddMiner/AddStake check is what they record: no field of the miner record (account, id, type, stake) is assigned between the uniqueness lookups and UpdateMiner. " +
 		"Not decided: the sums themselves; equality of the three lookup results as values."
@@ -36,6 +37,7 @@ func c20(c *eng.Ctx, r *eng.Report) {
 	c20Election(c, r)
 	c20CheckedIsRecorded(c, r)
 	c20RefundBounded(c, r)
+	c20EscrowAccumulates(c, r)
 }
 
 func c20Layers(c *eng.Ctx, r *eng.Report) {
@@ -706,4 +708,52 @@ func c20RefundBounded(c *eng.Ctx, r *eng.Report) {
 		}
 	}
 	r.Check(bad == "" && n >= 1, rule, "refund:bounded-by-stake", c.Pos(fn.Pos()), "Stake - money only where Stake >= money", "GetRefundStake computes "+bad+" without the `Stake >= money` test in front of it: both are uint64, so asking for more than the stake wraps the recorded stake to about 2^64 and schedules the full amount for payout — tokens are created and the total proposer stake becomes enormous")
+}
+
+// c20EscrowAccumulates: see R20.10.
+func c20EscrowAccumulates(c *eng.Ctx, r *eng.Report) {
+	const rule = "R20.10"
+	r.Min(rule, 1)
+	fn := c.Func("service", "(*RefundManager).Add")
+	if !r.Anchor(fn != nil, rule, "service.(*RefundManager).Add") {
+		return
+	}
+	var get *ssa.Call
+	for _, s := range eng.Sites(fn) {
+		if strings.HasSuffix(s.Name(), "AccountDB).GetData") {
+			get, _ = s.Instr.(*ssa.Call)
+		}
+	}
+	if !r.Anchor(get != nil, rule, "RefundManager.Add: GetData of the escrow slot") {
+		return
+	}
+	n := 0
+	for _, s := range eng.Sites(fn) {
+		if !strings.HasSuffix(s.Name(), "AccountDB).SetData") {
+			continue
+		}
+		n++
+		args := s.Common().Args
+		val := args[len(args)-1]
+		// on the empty-slot edge?
+		// every path to this store crosses an edge that found the slot empty (`nil == b || 0 == len(b)` has no
+		// single dominating edge)
+		emptyEdge := func(a *ssa.BasicBlock, succ int) bool {
+			iff, isIf := a.Instrs[len(a.Instrs)-1].(*ssa.If)
+			if !isIf {
+				return false
+			}
+			m, isM := eng.DecodeCmp(iff.Cond)
+			if !isM || !(deepDerives(m.X, get) || deepDerives(m.Y, get)) {
+				return false
+			}
+			return (m.Op == token.EQL && succ == 0) || (m.Op == token.NEQ && succ == 1)
+		}
+		empty := !eng.PathToAvoiding(fn, s.Instr, func(ssa.Instruction) bool { return false }, emptyEdge)
+		ok := empty || deepDerives(val, get)
+		r.Check(ok, rule, fmt.Sprintf("escrow-accumulates:Add#%d", n-1), c.Pos(s.Pos()), "the stored amount is existing + new unless the slot was empty", "RefundManager.Add stores "+eng.Desc(val)+" into an escrow slot that may already hold an amount, and that value is not computed from what GetData returned: the earlier refund scheduled for the same height and account is overwritten — refunds of 300 and 200 flushed separately credit 200, and liquid + staked no longer adds up (9700 of 10000)")
+	}
+	if n == 0 {
+		r.Fail(rule, "escrow-accumulates:none", c.Pos(fn.Pos()), "RefundManager.Add no longer calls SetData: the rule has lost its anchor")
+	}
 }
